@@ -1094,9 +1094,24 @@ def _(it, ci, a, d):
     return VecV([])
 
 
+def _concrete_vec(ref):
+    """a Vec that is an abstract node of the grammar engine (the result of a repetition taken as one inductive step) becomes a
+    one-element vector holding that node when the code edits it (push / insert of further nodes)"""
+    v = deref(ref)
+    if type(v) is Opaque and v.kind == 'ANode':
+        r = ref
+        while type(r) is Ref and type(r.get()) is Ref:
+            r = r.get()
+        if type(r) is Ref:
+            nv = VecV([v])
+            r.lst[r.idx] = nv
+            return nv
+    return v
+
+
 @model('Vec::push')
 def _(it, ci, a, d):
-    deref(a[0]).fields.append(a[1])
+    _concrete_vec(a[0]).fields.append(a[1])
     return UNIT
 
 
@@ -2296,7 +2311,7 @@ def _(it, ci, a, d):
 
 @model('Vec::insert')
 def _(it, ci, a, d):
-    v = deref(a[0])
+    v = _concrete_vec(a[0])
     if a[1] > len(v.fields):
         raise RustPanic('insertion index out of bounds')
     v.fields.insert(a[1], a[2])
